@@ -26,7 +26,10 @@ def bsearch (d : Array Nat) (target : Nat) : Nat → Nat → Nat → Option Nat
     else if v < target then bsearch d target fuel (mid + 1) hi
     else bsearch d target fuel lo mid
 
-def find (d : List Nat) (x : Nat) : Option Nat := bsearch d.toArray x (d.length + 1) 0 d.length
+/-- lookup in an already converted array (so that the compiled encoder converts the dictionary once) -/
+def findA (a : Array Nat) (n : Nat) (x : Nat) : Option Nat := bsearch a x (n + 1) 0 n
+
+def find (d : List Nat) (x : Nat) : Option Nat := findA d.toArray d.length x
 
 def maxDict : Nat := 1048576
 
@@ -37,7 +40,8 @@ def enc (xs : List Nat) : List Nat :=
   -- as repaired: varintDictBuild fails above VARINT_DICT_MAX_SIZE entries (the decoders refuse them)
   if d.length > maxDict then [] else
   let w := indexWidth d.length
-  match xs.mapM (find d) with
+  let a := d.toArray
+  match xs.mapM (findA a d.length) with
   | none => []
   | some idx =>
     Tagged.enc d.length ++ d.flatMap Tagged.enc ++ Tagged.enc xs.length ++ idx.flatMap (leBytes w)
